@@ -90,9 +90,7 @@ def from_text(s):
         raise decimal.InvalidOperation([decimal.ConversionSyntax])
     v = rt.m_int(mkstr(digs))
     coef = rt.iterm(v)
-    if len(digs) > PREC:
-        raise Unsupported("more digits than the context precision")
-    return SymDec(neg, coef, -(frac or 0))
+    return SymDec(neg, coef, -(frac or 0))          # decimal.Decimal(str) is exact, whatever the context precision
 
 
 def m_Decimal(value="0", context=None):
@@ -112,7 +110,7 @@ def m_Decimal(value="0", context=None):
 rt.MODELS[decimal.Decimal] = m_Decimal
 
 
-def _ndigits(coef, maxd=PREC + 2):
+def _ndigits(coef, maxd=40):
     """number of digits of coef (>= 1), forking"""
     eng = E()
     n = 1
@@ -306,6 +304,27 @@ def _compare(op, a, b):
 
 
 rt.COMPARE_HOOKS.append(_compare)
+
+
+def _binop(op, a, b):
+    """Decimal arithmetic with an integer zero (value + 0, 0 + value, value - 0): the sign of a zero is dropped,
+    a positive exponent is expanded; results beyond the context precision are outside the model"""
+    if op in ('+', '-') and (isinstance(a, SymDec) or isinstance(b, SymDec)):
+        d, k = (a, b) if isinstance(a, SymDec) else (b, a)
+        if isinstance(k, int) and not isinstance(k, bool) and k == 0 and not (op == '-' and d is b):
+            exp = min(d.exp, 0)
+            coef = d.coef * (10 ** (d.exp - exp))
+            if not decide(coef < 10 ** PREC):
+                raise Unsupported("Decimal addition rounded to the context precision")
+            neg = d.neg if isinstance(d.neg, bool) else z3.And(d.neg, coef != 0)
+            if isinstance(d.neg, bool) and d.neg:
+                neg = coef != 0
+            return SymDec(neg, z3.simplify(coef), exp)
+        raise Unsupported("Decimal arithmetic on symbolic values")
+    return NotImplemented
+
+
+rt.BINOP_HOOKS.append(_binop)
 
 
 def _conc(v, model):
